@@ -404,7 +404,17 @@ class WritePath:
             def __getattr__(self, n):
                 return getattr(os, n)
 
-        mod.tempfile, mod.os = T(), O()
+        def opener(file, mode="r", *a, **kw):
+            # a write path that opens the entry (or anything else) directly: same instrumentation
+            if "w" not in mode and "a" not in mode and "x" not in mode:
+                return open(file, mode, *a, **kw)
+            plan("create", 0, None)
+            p = FileProxy(open(file, mode, *a, **kw), plan)
+            proxies.append(p)
+            plan("created", 0, p)
+            return p
+
+        mod.tempfile, mod.os, mod.open = T(), O(), opener
         try:
             exc = None
             try:
@@ -414,6 +424,7 @@ class WritePath:
             return exc, proxies
         finally:
             mod.tempfile, mod.os = tempfile, os
+            del mod.open
 
     def snapshot(self, d, cache, bucket):
         entry = os.path.basename(cache._get_cache_filename(bucket))
@@ -897,8 +908,8 @@ def run(ctx, res):
                  f"{stats['history_maxlen']} over get/modify/clear/new-environment/truncate-in-magic/-in-checksum/-in-code (file system) and "
                  "length one less over memcache get with client ok/get-fails/set-fails/truncating x3, modify, new-environment x "
                  "ignore_memcache_errors on/off, ending in a get, plus random longer ones. (d) 7 option pairs + a control, both orders"),
-        "samples": [{"unit": sorted(s1)[len(s1) // 2]}, {"write_path": sorted(s2, key=str)[len(s2) // 2]},
-                    {"history": [list(o) for o in sorted(s3, key=str)[len(s3) // 2][2]]}],
+        "samples": [{"unit": sorted(s1)[len(s1) // 2]} if s1 else {}, {"write_path": sorted(s2, key=str)[len(s2) // 2]} if s2 else {},
+                    {"history": [list(o) for o in sorted(s3, key=str)[len(s3) // 2][2]]} if s3 else {}],
         "exhaustive": True,
         **stats,
     })
